@@ -2,6 +2,8 @@
 import json, os, time
 
 VERIF = os.path.dirname(os.path.dirname(os.path.abspath(__file__)))
+# test tooling only (tools/sweep.py analyses scratch worktrees in parallel): where evidence / violation files go
+OUT = os.environ.get('VERIF_OUT', VERIF)
 
 
 class Ob:
@@ -79,7 +81,7 @@ def finish(report, tier, seed, t0, argv):
                 seen_known.add(k)
         else:
             new.append(o)
-    outdir = os.path.join(VERIF, 'out', 'violations')
+    outdir = os.path.join(OUT, 'out', 'violations')
     os.makedirs(outdir, exist_ok=True)
     # clear stale violation files of this property
     for f in os.listdir(outdir):
@@ -139,8 +141,8 @@ def finish(report, tier, seed, t0, argv):
         'coverage': cov, 'assumptions': report.assumptions,
         'wall_s': round(time.time() - t0, 2), 'violations': len(dedup),
     }
-    os.makedirs(os.path.join(VERIF, 'evidence'), exist_ok=True)
-    json.dump(ev, open(os.path.join(VERIF, 'evidence', pid + '.json'), 'w'), indent=1)
+    os.makedirs(os.path.join(OUT, 'evidence'), exist_ok=True)
+    json.dump(ev, open(os.path.join(OUT, 'evidence', pid + '.json'), 'w'), indent=1)
     print(f"{pid}: {ok}/{total} obligations held, {len(dedup)} violation(s), "
           f"{len(seen_known)} known finding(s), {ev['wall_s']}s [{tier}]")
     return 1 if dedup else 0
